@@ -11,8 +11,8 @@ import (
 // bad hash, bad digits, bad skew (OCRA: harness C06/iff and C06/invalid assert the same pair).
 //
 //verif:harness prop=C13 name=verdict
-//verif:cases quick which=0,1 skew=0,1,11 dlen=-1,0,1
-//verif:cases thorough which=0,1 skew=0,1,2,10,11 dlen=-1,0,1
+//verif:cases quick which=0,1 skew=0,1,11 dlen=-1,0,1 keylen=0,10
+//verif:cases thorough which=0,1 skew=0,1,2,10,11 dlen=-1,0,1 keylen=0,1,10,64
 //verif:replace github.com/ja7ad/otp.deriveRFC4226=verifStub_derive
 //verif:replace github.com/ja7ad/otp.DecodeSecret=verifStub_DecodeSecret
 //verif:opt maxpaths=4000 unwind=100
@@ -24,7 +24,7 @@ func verifH_C13_verdict() {
 		skew = verifUint("skew")
 		verifAssume(skew > 10)
 	}
-	key := verifBytes("key", 10)
+	key := verifBytes("key", verifCase("keylen")) // including the empty key (secret "" or white space only)
 	secret := verifSecretFor(key, verifBool("decode_fails"))
 	n := int(d) + verifCase("dlen")
 	if n < 0 {
